@@ -24,7 +24,8 @@ assert os.path.abspath(txtorcon.__file__).startswith(os.path.abspath(REPO)), txt
 EVNAMES = ["EVA", "EVB"]
 CODES = {"2": "250", "5": "552", "6": "650"}
 
-DATA_KINDS = ("d", "dS", "dE", "dM", "dP", "dK")
+DATA_KINDS = ("d", "dS", "dE", "dM", "dP", "dK", "dL")
+LONG = "L" * 17000       # longer than Twisted's default line limit (16384); the protocol raises it to Tor's 1 MiB
 
 
 def render(kind, cls, n, name):
@@ -49,6 +50,8 @@ def render(kind, cls, n, name):
         return ".", None
     if kind == "d0":
         return "", ""            # an empty data line: part of the payload like any other line
+    if kind == "dL":
+        return "t%d %s" % (n, LONG), "t%d %s" % (n, LONG)
     txt = {"d": "t%d", "dS": "250 t%d", "dE": "650 EVA t%d", "dM": "250-t%d", "dP": "250+t%d",
            "dK": "k%d=v"}[kind] % n
     return txt, txt
@@ -413,11 +416,12 @@ REPLY_SHAPES = [("2", ["sOK"]), ("2", ["s"]), ("2", ["m", "s"]), ("2", ["m", "m"
                 ("2", ["p", "d", ".", "sOK"]), ("2", ["p", ".", "s"]),
                 ("2", ["m", "p", "dS", "dE", ".", "m", "sOK"]), ("2", ["p", "dM", "dP", "dK", "d", ".", "sOK"]),
                 ("2", ["p", "d", ".", "p", "dS", ".", "sOK"]), ("2", ["p", "d0", "d", "d0", ".", "sOK"]),
+                ("2", ["p", "dL", "d", ".", "sOK"]),
                 ("5", ["s"]), ("5", ["m", "s"]), ("5", ["m", "m", "s"])]
 EVENT_SHAPES = [["s"], ["sB"], ["m", "sOK"], ["mB", "m", "sOK"], ["m", "m", "m", "sOK"], ["p", "d0", "d", "d0", ".", "sOK"],
                 ["p", "d0", ".", "sOK"],
                 ["p", "d", ".", "sOK"], ["pB", "dM", "d", ".", "sOK"], ["pB", "dS", "dE", "dK", ".", "sOK"],
-                ["m", "p", "d", ".", "sOK"]]
+                ["m", "p", "d", ".", "sOK"], ["p", "dL", ".", "sOK"]]
 LISTENERS = ["ok1", "ok2", "self", "other", "raise", "adder", "late", "killer"]
 
 
